@@ -278,7 +278,7 @@ func constructors() []subject {
 
 func maxSize(r *engine.Rec) int {
 	if r.Tier == "thorough" {
-		return 8
+		return 12
 	}
 	return 4
 }
